@@ -90,6 +90,57 @@ def readText (T : Tbl) (late : Bool) : Nat → PStr → PStr
         entityRef T (cs.take n) ++ readText T late (n + semi) cs
       else 38 :: readText T late 0 cs
 
+/-- `charref` needs its terminator: at the very end of the document a digit run that reaches the end does not match -/
+def charrefMatchEnd (l : PStr) : Option (Nat × Nat) :=
+  match l with
+  | [] => none
+  | x :: r =>
+    if x = 120 || x = 88 then
+      let n := spanLen isHex r
+      if n = 0 then none else
+      match r.drop n with
+      | _ :: _ => some (numVal 16 (r.take n), n + 1)
+      | [] => none
+    else
+      let n := spanLen isDigit l
+      if n = 0 then none else
+      match l.drop n with
+      | t :: _ => if isHex t then none else some (numVal 10 (l.take n), n)
+      | [] => none
+
+/-- The text the tree holds after parsing tag-free `s` that is the **last thing of the document** (no tag after it:
+    top-level text, or text in an element that is never closed). Differences from `readText`, all at the end of the
+    input (html/parser.py:200-251): a reference whose name or digits run to the end has no terminator — `entityref`
+    backtracks to the last `-`/`.` of the run (the name before it is looked up, the rest is text), `&` + one letter is
+    consumed without any callback at `close()` (parser.py:228-232), any other unterminated reference and everything
+    after a `&#` bail at `close()` is flushed as it stands (parser.py:245-249: no tags to swallow, so no `RUNAWAY`). -/
+def readTextEnd (T : Tbl) (late : Bool) : Nat → PStr → PStr
+  | _, [] => []
+  | k + 1, _ :: cs => readTextEnd T late k cs
+  | 0, c :: cs =>
+    if c ≠ 38 then c :: readTextEnd T late 0 cs else
+    match cs with
+    | [] => [38]
+    | d :: ds =>
+      if d = 35 then
+        match charrefMatchEnd ds with
+        | some (v, len) =>
+          let semi := match ds.drop len with | 59 :: _ => 1 | _ => 0
+          charRef T v ++ readTextEnd T late (1 + len + semi) cs
+        | none =>
+          if !late && ds.contains 59 then 38 :: 35 :: readTextEnd T true 1 cs
+          else 38 :: cs
+      else if isAlpha d then
+        match cs.drop (spanLen isNameChar cs) with
+        | t :: _ =>
+          let semi := if t = 59 then 1 else 0
+          entityRef T (cs.take (spanLen isNameChar cs)) ++ readTextEnd T late (spanLen isNameChar cs + semi) cs
+        | [] =>
+          match lastDashDot cs with
+          | some q => entityRef T (cs.take q) ++ readTextEnd T late q cs
+          | none => if ds.isEmpty then cs else 38 :: cs
+      else 38 :: readTextEnd T late 0 cs
+
 /-! ## html.unescape -/
 
 /-- `[^\t\n\f <&#;]` -/
